@@ -14,7 +14,7 @@ open Muscle
 
 /-- the parent's index after the operation, from the parent node before (and whether the named child exists) -/
 def IdxOp.nextIndex (parent : List Bytes) (sv : Server) (p : Node) : IdxOp → List Bytes
-  | .insert _ _ before name _ => insertAt p.index (insertPos p.index before) (ordPair p name).1
+  | .insert _ _ before name _ => insertIndexAfter p before name
   | .reorder child before => reorderIndex p child before
   | .removeEntry key => eraseLast p.index key
   | .removeOne _ key | .removeChild _ key =>
@@ -26,7 +26,7 @@ theorem IdxOp.getNode_run {sv : Server} {parent : List Bytes} {p : Node} (op : I
     ∃ p', getNode (op.run parent sv) parent = some p' ∧ p'.index = op.nextIndex parent sv p := by
   cases op with
   | insert by_ d before name nc =>
-    exact ⟨_, getNode_insertOrderedChild by_ d before name nc h, by simp [IdxOp.nextIndex]⟩
+    exact ⟨_, getNode_insertOrderedChild by_ d before name nc h, by simp [IdxOp.nextIndex, insertOrderedResult_index]⟩
   | reorder child before =>
     exact ⟨_, getNode_reorderChild child before h, by simp [IdxOp.nextIndex]⟩
   | removeEntry key =>
@@ -50,7 +50,9 @@ theorem IdxOp.applyAll_log {sv : Server} {parent : List Bytes} {p : Node} (op : 
     (h : getNode sv parent = some p) :
     applyAll p.index (op.log parent sv) = some (op.nextIndex parent sv p) := by
   cases op with
-  | insert by_ d before name nc => simp [IdxOp.log, IdxOp.nextIndex, h, applyAll, apply_ins_insertPos]
+  | insert by_ d before name nc =>
+    simp only [IdxOp.log, IdxOp.nextIndex, h, insertIndexAfter]
+    split <;> simp [applyAll, apply_ins_insertPos]
   | reorder child before => simp [IdxOp.log, IdxOp.nextIndex, h, applyAll_reorderLog]
   | removeEntry key => simp [IdxOp.log, IdxOp.nextIndex, h, applyAll_remLog]
   | removeOne by_ key =>
@@ -101,8 +103,33 @@ theorem idxInv_insert {p p' : Node} {i : Nat} {nm : Bytes} (h : IdxInv p)
   rw [hi, mem_insertAt] at hx
   rw [hk]
   rcases hx with hx | hx
-  · subst hx; rw [← hcn, findKid_putKid_same]; rfl
+  · subst hx; rw [← hcn, ix_findKid_putKid_same]; rfl
   · exact findKid_putKid_isSome c (h.2 x hx)
+
+/-- the child is put, the index is left alone -/
+theorem idxInv_put {p p' : Node} (h : IdxInv p) (hi : p'.index = p.index) (hk : ∃ c, p'.kids = putKid c p.kids) :
+    IdxInv p' := by
+  obtain ⟨c, hk⟩ := hk
+  refine ⟨by rw [hi]; exact h.1, ?_⟩
+  intro x hx
+  rw [hi] at hx
+  rw [hk]
+  exact findKid_putKid_isSome c (h.2 x hx)
+
+theorem idxInv_insertResult {sv : Server} {parent : List Bytes} {p : Node} {d : Option Nat} {before name : Bytes}
+    (h : IdxInv p)
+    (hok : before = removeFromIndexName ∨ findKid (ordPair p name).1 p.kids = none ∨ (ordPair p name).1 ∉ p.index) :
+    IdxInv (insertOrderedResult sv parent p d before name) := by
+  obtain ⟨c, hc1, _, _, hc2⟩ := insertOrderedResult_kids sv parent p d before name
+  have hi := insertOrderedResult_index sv parent p d before name
+  unfold insertIndexAfter at hi
+  by_cases hb : before = removeFromIndexName
+  · rw [if_pos hb] at hi
+    exact idxInv_put h hi ⟨c, hc2⟩
+  · rw [if_neg hb] at hi
+    rcases hok with hok | hok
+    · exact absurd hok hb
+    · exact idxInv_insert h hok hi ⟨c, hc1, hc2⟩
 
 theorem idxInv_eraseLast {p p' : Node} (key : Bytes) (h : IdxInv p) (hi : p'.index = eraseLast p.index key)
     (hk : ∀ c, c ≠ key → (findKid c p'.kids).isSome = (findKid c p.kids).isSome) : IdxInv p' := by
@@ -141,11 +168,11 @@ theorem idxInv_reorder {p : Node} {child before : Bytes} (h : IdxInv p)
 
 theorem idxInv_removeKid {p : Node} (key : Bytes) (h : IdxInv p) :
     IdxInv ((p.setIndex (eraseLast p.index key)).setKids (removeKid key p.kids)) :=
-  idxInv_eraseLast key h (by simp) (by intro c hc; simp [findKid_removeKid_ne _ hc])
+  idxInv_eraseLast key h (by simp) (by intro c hc; simp [ix_findKid_removeKid_ne _ hc])
 
 theorem idxInv_removeKid_same {p p' : Node} (key : Bytes) (h : IdxInv p) (hs : Same p p') :
     IdxInv ((p'.setIndex (eraseLast p.index key)).setKids (removeKid key p'.kids)) :=
-  idxInv_eraseLast key h (by simp) (by intro c hc; simp [findKid_removeKid_ne _ hc, hs.2])
+  idxInv_eraseLast key h (by simp) (by intro c hc; simp [ix_findKid_removeKid_ne _ hc, hs.2])
 
 /-- one operation keeps the invariant of the parent node -/
 theorem IdxOp.step_inv {sv : Server} {parent : List Bytes} {p : Node} (op : IdxOp)
@@ -154,8 +181,7 @@ theorem IdxOp.step_inv {sv : Server} {parent : List Bytes} {p : Node} (op : IdxO
   cases op with
   | insert by_ d before name nc =>
     refine ⟨_, getNode_insertOrderedChild by_ d before name nc h, ?_⟩
-    obtain ⟨c, hc1, _, _, hc2⟩ := insertOrderedNode_kids sv parent p d (ordPair p name).1 (ordPair p name).2 (insertPos p.index before)
-    exact idxInv_insert hinv hok (insertOrderedNode_index _ _ _ _ _ _ _) ⟨c, hc1, hc2⟩
+    exact idxInv_insertResult hinv hok
   | reorder child before =>
     exact ⟨_, getNode_reorderChild child before h, idxInv_reorder hinv hok⟩
   | removeEntry key =>
